@@ -361,9 +361,17 @@ def coqchk_ties(units, limit=6):
     t0 = time.time()
 
     def one(st):
-        r = subprocess.run(["timeout", "1500", "coqchk", "-o", "-silent", "-Q", COQ, "BM", "-Q", GEN, "BMGen",
-                            "-Q", srcdir, "BMTieCheck", "BMTieCheck." + st],
-                           stdout=subprocess.PIPE, stderr=subprocess.STDOUT, text=True, cwd=COQ)
+        def chk():
+            return subprocess.run(["timeout", "3000", "coqchk", "-o", "-silent", "-Q", COQ, "BM", "-Q", GEN, "BMGen",
+                                   "-Q", srcdir, "BMTieCheck", "BMTieCheck." + st],
+                                  stdout=subprocess.PIPE, stderr=subprocess.STDOUT, text=True, cwd=COQ)
+        r = chk()
+        if r.returncode != 0 and "nconsistent assumptions" in r.stdout:
+            # the compiled copy is from an earlier compilation of the same text against another build of Src_<crate>.vo
+            # (check_ties found its verdict in the cache and did not recompile): recompile the copy, then re-check
+            subprocess.run(["timeout", "2400", "coqc", "-Q", COQ, "BM", "-Q", GEN, "BMGen", "-Q", srcdir, "BMTieCheck",
+                            os.path.join(srcdir, st + ".v")], stdout=subprocess.PIPE, stderr=subprocess.STDOUT, text=True)
+            r = chk()
         ax = re.search(r"\* Axioms:\s*(.*)", r.stdout)
         return st, r.returncode, (ax.group(1).strip() if ax else "?"), r.stdout[-600:]
 
